@@ -13,7 +13,7 @@ CFG = dict(
                'values (which coercion each column type applies, which array type is read back); integer-to-float conversion is modelled '
                'exactly for |z| < 2^53. good_store (theorem hypothesis) implies c12_class = 0 (checker class); the converse margin is covered by '
                'the per-run check only.',
-    bin='c12', n_quick=150, n_thorough=4000,
+    bin='c12', n_quick=150, n_thorough=750,
     corr_name='Model/StoreCodec.v vs WAL JSON + Parquet batch codec through StorageEngine restart',
     rule='corpus: each of 13 value groups alone (all values in one batch / one per batch) x buffer {1,2,10000}; every ordered pair of the 9 kinds in '
          'one column x buffer {1,2,10000} + same batch; random: arity 1-2, a base kind per column with 0-37% deviation to any of 13 groups '
